@@ -533,6 +533,11 @@ def _fit_hourly(case, col, stats):
         return df
 
     S = hset.HourlySolarSettings if case.get("solar") else hset.HourlyNonSolarSettings
+    if case.get("ghi_ignored"):
+        # the frame carries (gappy) irradiance, the model is told not to use it: which hours are "non-interpolated" is a fact
+        # about the data, not about the features the model uses
+        def S(**kw):
+            return hset.HourlyNonSolarSettings(train_features=["temperature"], **kw)
     raw = data()
     measured = (raw["observed"].notna() & raw["temperature"].notna()).to_numpy()
     if "ghi" in raw.columns:
@@ -731,6 +736,7 @@ def fit_cases(tier):
     for cvt, pnt in itertools.product(["lo", "hi"], repeat=2):
         out.append({"kind": "fit", "family": "hourly", "cv_thr": cvt, "pn_thr": pnt})
     out.append({"kind": "fit", "family": "hourly", "cv_thr": "lo", "pn_thr": "lo", "solar": True})
+    out.append({"kind": "fit", "family": "hourly", "cv_thr": "hi", "pn_thr": "hi", "solar": True, "ghi_ignored": True})
     if tier == "thorough":
         out.append({"kind": "fit", "family": "hourly", "cv_thr": "hi", "pn_thr": "lo", "solar": True})
     for fam in ("billing", "daily"):
